@@ -529,6 +529,30 @@ def y5(prog):
             if (fn, short_name) in Y5_EXEMPT:
                 inst.append(("Y5:%s:call:%s" % (fn, short_name), {"exempt": Y5_EXEMPT[(fn, short_name)]}))
                 continue
+            # a helper of the scanner/parser file that raises by itself is the same site as the inline `throw` it was extracted
+            # from: name it by the message of the exception, as an inline throw is named
+            g = next((prog.funcs[k] for k in keys if k in prog.funcs and prog.funcs[k]["q"] == thrower), None) if not ext else None
+            if g is None and not ext:
+                g = next((x for x in prog.funcs.values() if x["q"] == thrower and x.get("body") is not None), None)
+            stem = lambda p_: os.path.basename(p_ or "").split(".")[0]
+            if g is not None and g.get("body") is not None and stem(g.get("file")) == stem(f.get("file")):
+                msgs = []
+                for x in walk(g["body"]):
+                    if x.get("k") == "throw":
+                        m_ = next((y["v"] for y in walk(x) if y.get("k") == "str"), None)
+                        msgs.append((m_, x.get("l")))
+                # only a helper that does nothing but raise (no return statement, last statement is the throw)
+                only_throws = not any(x.get("k") == "return" for x in walk(g["body"])) and g["body"].get("k") == "block" and g["body"]["s"] \
+                    and (g["body"]["s"][-1].get("k") == "throw" or (g["body"]["s"][-1].get("k") in ("exprstmt",) and False))
+                if only_throws and len(msgs) == 1 and all(m_ for m_, _ in msgs):
+                    for m_, loc in msgs:
+                        key = "Y5:%s:throw:%s" % (fn, m_[:40])
+                        if any(x["key"] == key for x in findings):
+                            continue
+                        n += 1
+                        findings.append({"key": key, "where": loc,
+                                         "msg": "%s throws (`%s`, in its helper %s) through bison/flex C frames: raw pointers on the parser's value stack and the pending fmtlit are not released" % (fn, m_, short_name), "detail": None})
+                    continue
             key = "Y5:%s:call:%s" % (fn, short_name)
             if any(x["key"] == key for x in findings):
                 continue
